@@ -154,3 +154,19 @@ CHECKS["C20"] = {
     "technique": "contract-based deductive verification: fault enumeration over structure skeletons, symbolic execution of the real constructor, exception-type obligations; native replay",
 }
 NOT_APPLICABLE.pop("C20", None)
+
+CHECKS["C12"] = {
+    "category": "proof",
+    "text": ("Unbounded: _ModelConfig._create_and_register_paramsets is proved with a loop invariant for ANY number of parameter sets of ANY sizes "
+             "(next_index is the prefix sum, every registered slice is [P(j), P(j+1)), par_order is the names so far) => the slices tile [0, npars) "
+             "in par_order. Skeleton-bounded with symbolic numbers and symbolic measurement overrides (two override sets per skeleton): slices and "
+             "sizes, one entry per component in suggested_init/bounds/fixed/par_names, overrides (inits, bounds, fixed) verbatim and documented "
+             "defaults otherwise, Workspace.data == observations in model channel order (+auxdata) with a second call equal and nothing mutated, "
+             "the caller's specification untouched, layout / rates / data invariant under reversing every list, Workspace.build(model, data) "
+             "reproduces layout, data, settings and auxiliary data. Found and repaired (fix: commits): build dropped auxdata/sigmas/factors (lumi "
+             "models could not be rebuilt) and raised RuntimeError for partly fixed parameter sets."),
+    "note": ("_ChannelSummaryMixin slice loop checked for 1-4 channels (bounded, labelled); sorted/set/deepcopy are assumed builtin contracts; the "
+             "constraint-term side of the overrides (auxdata, sigmas, factors) is C02"),
+    "technique": "contract-based deductive verification: loop invariant over z3 arrays (unbounded) plus symbolic execution of the real constructors per structure skeleton; native replay",
+}
+NOT_APPLICABLE.pop("C12", None)
